@@ -257,7 +257,7 @@ func genSign(r *c.Rng) *Case {
 
 func genPop(r *c.Rng) *Case {
 	k := &Case{Op: c.Pick(r, []string{"renew", "renew", "rekey", "rekey", "revoke"})}
-	k.CA = c.Pick(r, []string{"both", "both", "both", "fed", "fed", "fed", "host", "user"})
+	k.CA = c.Pick(r, []string{"both", "both", "both", "fed", "fed", "fed", "host", "user", "linked", "linked"})
 	k.Cert = Opts{CertType: "host", KeyID: c.Pick(r, []string{"host.example.com", "h1", ""}), Principals: genPrincipals(r, 3)}
 	k.SignBy, k.Window, k.TokKey, k.Aud, k.Iss, k.Key = "host", "ok", "cert", "ok", "ok", "ed"
 	k.SubSer = k.Op == "revoke"
@@ -287,9 +287,9 @@ func genPop(r *c.Rng) *Case {
 		case 8:
 			k.NoSub = true
 		case 9:
-			k.Revoked = k.CA == "both"
+			k.Revoked = k.CA == "both" || k.CA == "linked"
 		case 16:
-			k.RevAPI = k.CA == "both" && k.Op != "revoke"
+			k.RevAPI = (k.CA == "both" || k.CA == "linked") && k.Op != "revoke"
 		case 10:
 			k.DisRen = true
 		case 11:
@@ -428,6 +428,14 @@ func corner() []*Case {
 		pop("renew", func(k *Case) { k.TokKey = "other" }),
 		pop("renew", func(k *Case) { k.Revoked = true }),
 		pop("rekey", func(k *Case) { k.Revoked = true }),
+		// linked CA: the revocation record lives at the Majordomo service
+		pop("renew", func(k *Case) { k.CA = "linked" }),
+		pop("rekey", func(k *Case) { k.CA = "linked" }),
+		pop("renew", func(k *Case) { k.CA, k.Revoked = "linked", true }),
+		pop("renew", func(k *Case) { k.CA, k.RevAPI = "linked", true }),
+		pop("rekey", func(k *Case) { k.CA, k.RevAPI = "linked", true }),
+		pop("renew", func(k *Case) { k.CA, k.RevAPI, k.Via = "linked", true, "api" }),
+		{Op: "sign", CA: "linked", Prov: "jwk", Sub: "alice", Tok: Opts{CertType: "host", Principals: []string{"h.example.com"}}, Key: "ed"},
 		// revocation through the real POST /ssh/revoke handler, then renew / rekey
 		pop("renew", func(k *Case) { k.RevAPI = true }),
 		pop("rekey", func(k *Case) { k.RevAPI = true }),
